@@ -568,6 +568,11 @@ fn run_one_child(id: &str, casefile: &Path, timeout_s: u64) -> Result<CaseResult
 }
 
 fn abort_class(stderr: &str) -> String {
+    // allocation failure (memory limit reached): always reported as such, whatever the
+    // backtrace below it says
+    if let Some(l) = stderr.lines().find(|l| l.starts_with("memory allocation of")) {
+        return l.trim().to_string();
+    }
     // the interesting line is the panic / abort message
     let line = stderr
         .lines()
